@@ -1,4 +1,1094 @@
-//! `mwverif synrules ...` -- see DESIGN.md; implemented by the check of the corresponding property.
-pub fn main(_args: &[String]) -> Result<(), String> {
-    Err("synrules: not implemented yet".into())
+//! `mwverif synrules ...` -- C17: syntax-rules transformers and uses, evaluated in a real Vm.
+//!
+//!   synrules gen seed=S count=N out=F [uses=5] [timeout_ms=10000] [mem_mb=160]
+//!       generate transformers and use forms, run them, write one ndjson record per
+//!       (transformer, use) pair
+//!   synrules corpus in=corpus/synrules.scm out=F
+//!       hand-stated transformers with expected expansions (`;=> datum`, `;=> !` = no rule matches)
+//!   synrules run in=jobs.ndjson out=F        jobs: {"def": text, "uses": [text...]}
+//!   synrules worker                          (internal) evaluates jobs read from stdin
+//!
+//! Every rule template T is wrapped as (quote T), so evaluating a use yields the expansion
+//! as a datum without evaluating it.  Macro expansion is a Rust-level loop inside the
+//! compiler which the instruction-count watchdog cannot interrupt, so the evaluation runs in
+//! a child process with an address-space cap and a wall-clock limit: exceeding either is
+//! recorded as `timeout` (with `how`), the child is replaced and the run continues.
+use crate::enc::{parse_all, prog_datum, SymTab};
+use crate::gen_cmd::{get, kv};
+use crate::rng::Rng;
+use crate::sess::{Outcome, RunCfg, Session};
+use marwood::cell::Cell;
+use serde_json::{json, Value};
+use std::io::{BufRead, BufReader, Write};
+use std::process::{Child, ChildStdin, Command, Stdio};
+use std::sync::mpsc::{channel, Receiver, RecvTimeoutError};
+use std::time::Duration;
+
+pub fn main(args: &[String]) -> Result<(), String> {
+    if args.is_empty() {
+        return Err("synrules gen|corpus|run|worker ...".into());
+    }
+    let m = kv(&args[1..]);
+    match args[0].as_str() {
+        "worker" => worker(),
+        "gen" => {
+            let seed: u64 = get(&m, "seed", 0);
+            let count: usize = get(&m, "count", 100);
+            let uses: usize = get(&m, "uses", 5);
+            let out = m.get("out").cloned().ok_or("out=<file> required")?;
+            let mut jobs = vec![];
+            let nt = (count + uses - 1) / uses;
+            let mut left = count;
+            for t in 0..nt {
+                let mut g = Gen::new(seed.wrapping_mul(1_000_003).wrapping_add(t as u64));
+                let mut job = g.job(uses.min(left));
+                job.tid = t + 1;
+                left -= job.uses.len();
+                jobs.push(job);
+            }
+            run_jobs(&jobs, &out, &m)
+        }
+        "corpus" => {
+            let inp = m.get("in").cloned().ok_or("in=<file> required")?;
+            let out = m.get("out").cloned().ok_or("out=<file> required")?;
+            let text = std::fs::read_to_string(&inp).map_err(|e| e.to_string())?;
+            let jobs = corpus_jobs(&text)?;
+            run_jobs(&jobs, &out, &m)
+        }
+        "run" => {
+            let inp = m.get("in").cloned().ok_or("in=<file> required")?;
+            let out = m.get("out").cloned().ok_or("out=<file> required")?;
+            let text = std::fs::read_to_string(&inp).map_err(|e| e.to_string())?;
+            let mut jobs = vec![];
+            for (i, line) in text.lines().enumerate() {
+                if line.trim().is_empty() {
+                    continue;
+                }
+                let j: Value = serde_json::from_str(line).map_err(|e| e.to_string())?;
+                let def = j["def"].as_str().ok_or("def")?.to_string();
+                let uses: Vec<String> =
+                    j["uses"].as_array().ok_or("uses")?.iter().map(|u| u.as_str().unwrap_or("").to_string()).collect();
+                let n = uses.len();
+                jobs.push(Job { tid: i + 1, def, rawdef: None, uses, expect: vec![None; n], feat: vec![] });
+            }
+            run_jobs(&jobs, &out, &m)
+        }
+        other => Err(format!("synrules: unknown sub-command {}", other)),
+    }
+}
+
+// ------------------------------------------------------------------------------------------
+// jobs, records
+
+pub struct Job {
+    pub tid: usize,
+    /// (define-syntax m (syntax-rules ...)) with quoted templates
+    pub def: String,
+    /// the definition as written (corpus only)
+    pub rawdef: Option<String>,
+    pub uses: Vec<String>,
+    /// corpus only: Some("!") = no rule matches, Some(text) = the expansion
+    pub expect: Vec<Option<String>>,
+    pub feat: Vec<String>,
+}
+
+fn parse_one(text: &str) -> Result<Cell, String> {
+    let v = parse_all(text)?;
+    if v.len() != 1 {
+        return Err(format!("expected one datum in {:?}", text));
+    }
+    Ok(v.into_iter().next().unwrap())
+}
+
+/// The record of one (transformer, use) pair.  `dr`: outcome of the definition,
+/// `ur`: outcome of the use (JSON object with field r).
+fn record(def: &Cell, use_: &Cell, dr: &Value, ur: &Value, value: Option<&Cell>) -> Value {
+    let mut st = SymTab::new();
+    let d = prog_datum(def, &mut st);
+    let u = prog_datum(use_, &mut st);
+    let mut ur = ur.clone();
+    if let Some(v) = value {
+        ur["v"] = prog_datum(v, &mut st);
+    }
+    json!({"def": d, "use": u, "dr": dr, "ur": ur, "syms": extra_syms(&st),
+           "text": [format!("{:#}", def), format!("{:#}", use_)]})
+}
+
+/// The names of the record's symbol table beyond the fixed ones (ids FIXED.len()+1 ...): the
+/// fixed names are the same in every record (spec/CEKNames.tla) and are not repeated.
+fn extra_syms(st: &SymTab) -> Value {
+    Value::Array(st.names[crate::names::FIXED.len()..].iter().map(|n| crate::enc::cps(n)).collect())
+}
+
+fn outcome_short(o: &Outcome) -> Value {
+    match o {
+        Outcome::Ok(_) => json!({"r":"ok"}),
+        Outcome::Err(e) => {
+            let msg = std::panic::catch_unwind(std::panic::AssertUnwindSafe(|| format!("{}", e))).unwrap_or_else(|_| "<error cannot be rendered>".into());
+            json!({"r":"err","k":crate::sess::error_variant(e),"msg":msg})
+        }
+        Outcome::Panic(m) => json!({"r":"panic","msg":m}),
+        Outcome::Timeout => json!({"r":"timeout","how":"instruction budget"}),
+        Outcome::StackLimit => json!({"r":"timeout","how":"stack limit"}),
+    }
+}
+
+// ------------------------------------------------------------------------------------------
+// worker: reads one job per line {"def": text, "uses": [text...], "skipdef": bool}, answers
+// {"dr": ...} after the definition and one full record per use, flushing each line.
+
+fn worker() -> Result<(), String> {
+    let stdin = std::io::stdin();
+    let stdout = std::io::stdout();
+    for line in stdin.lock().lines() {
+        let line = line.map_err(|e| e.to_string())?;
+        if line.trim().is_empty() {
+            continue;
+        }
+        let j: Value = serde_json::from_str(&line).map_err(|e| e.to_string())?;
+        let def = parse_one(j["def"].as_str().unwrap_or(""))?;
+        let cfg = RunCfg::plain();
+        let mut s = Session::new(&cfg);
+        s.install_sched(&cfg.sched);
+        let (o, _) = s.eval(&def, &cfg);
+        let dr = outcome_short(&o);
+        {
+            let mut w = stdout.lock();
+            writeln!(w, "{}", json!({"dr": dr})).map_err(|e| e.to_string())?;
+            w.flush().map_err(|e| e.to_string())?;
+        }
+        if dr["r"] != "ok" {
+            continue;
+        }
+        let probes = probe_defs(&def);
+        let mut install = |s: &mut Session| {
+            for p in &probes {
+                let _ = s.eval(p, &cfg);
+            }
+        };
+        install(&mut s);
+        for u in j["uses"].as_array().cloned().unwrap_or_default() {
+            let use_ = parse_one(u.as_str().unwrap_or(""))?;
+            if s.dead {
+                // the Vm is unusable after a panic: a fresh one with the same definitions
+                s = Session::new(&cfg);
+                s.install_sched(&cfg.sched);
+                let _ = s.eval(&def, &cfg);
+                install(&mut s);
+            }
+            // which rule does the implementation's matcher select?  (the first single-rule
+            // transformer with the same pattern and a constant template that accepts the use)
+            let mut mrule = 0;
+            for k in 0..probes.len() {
+                let probe_use = Cell::new_pair(Cell::new_symbol(&format!("m{}", k + 1)), use_.cdr().cloned().unwrap_or(Cell::Nil));
+                let (o, _) = s.eval(&probe_use, &cfg);
+                if let Outcome::Ok(_) = o {
+                    mrule = k + 1;
+                    break;
+                }
+                if s.dead {
+                    s = Session::new(&cfg);
+                    s.install_sched(&cfg.sched);
+                    let _ = s.eval(&def, &cfg);
+                    install(&mut s);
+                }
+            }
+            {
+                let mut w = stdout.lock();
+                writeln!(w, "{}", json!({"mrule": mrule})).map_err(|e| e.to_string())?;
+                w.flush().map_err(|e| e.to_string())?;
+            }
+            let mut rec = eval_use(&mut s, &cfg, &def, &use_, &dr);
+            rec["mrule"] = json!(mrule);
+            let mut w = stdout.lock();
+            writeln!(w, "{}", rec).map_err(|e| e.to_string())?;
+            w.flush().map_err(|e| e.to_string())?;
+        }
+    }
+    Ok(())
+}
+
+/// For rule k of the transformer: (define-syntax m<k> (syntax-rules [ell] (lits) (pattern_k 'k))).
+fn probe_defs(def: &Cell) -> Vec<Cell> {
+    let parts = def.collect_vec();
+    if parts.len() != 3 {
+        return vec![];
+    }
+    let sr = parts[2].collect_vec();
+    let mut head = vec![];
+    let mut i = 0;
+    if sr.len() < 2 {
+        return vec![];
+    }
+    head.push(sr[0].clone());
+    i += 1;
+    if sr[i].is_symbol() {
+        head.push(sr[i].clone());
+        i += 1;
+    }
+    if i >= sr.len() {
+        return vec![];
+    }
+    head.push(sr[i].clone());
+    i += 1;
+    let mut out = vec![];
+    for (k, r) in sr[i..].iter().enumerate() {
+        let pat = match r.car() {
+            Some(p) => p.clone(),
+            None => continue,
+        };
+        let tmpl = Cell::new_list(vec![Cell::new_symbol("quote"), Cell::from((k + 1) as i64)]);
+        let mut srk = head.clone();
+        srk.push(Cell::new_list(vec![pat, tmpl]));
+        out.push(Cell::new_list(vec![
+            Cell::new_symbol("define-syntax"),
+            Cell::new_symbol(&format!("m{}", k + 1)),
+            Cell::new_list(srk),
+        ]));
+    }
+    out
+}
+
+fn eval_use(s: &mut Session, cfg: &RunCfg, def: &Cell, use_: &Cell, dr: &Value) -> Value {
+    let (o, _) = s.eval(use_, cfg);
+    let ur = outcome_short(&o);
+    match &o {
+        Outcome::Ok(v) => record(def, use_, dr, &ur, Some(v)),
+        _ => record(def, use_, dr, &ur, None),
+    }
+}
+
+// ------------------------------------------------------------------------------------------
+// parent side: a child worker with limits
+
+struct Worker {
+    child: Child,
+    stdin: ChildStdin,
+    rx: Receiver<String>,
+}
+
+impl Worker {
+    fn spawn(mem_mb: usize) -> Result<Worker, String> {
+        let exe = std::env::current_exe().map_err(|e| e.to_string())?;
+        let script = format!("ulimit -v {}; exec \"$0\" synrules worker", mem_mb * 1024);
+        let mut child = Command::new("sh")
+            .arg("-c")
+            .arg(script)
+            .arg(exe)
+            .stdin(Stdio::piped())
+            .stdout(Stdio::piped())
+            .stderr(Stdio::null())
+            .spawn()
+            .map_err(|e| e.to_string())?;
+        let stdin = child.stdin.take().unwrap();
+        let stdout = child.stdout.take().unwrap();
+        let (tx, rx) = channel();
+        std::thread::spawn(move || {
+            for line in BufReader::new(stdout).lines() {
+                match line {
+                    Ok(l) => {
+                        if tx.send(l).is_err() {
+                            break;
+                        }
+                    }
+                    Err(_) => break,
+                }
+            }
+        });
+        Ok(Worker { child, stdin, rx })
+    }
+
+    /// Next answer line, or the reason there is none.
+    fn recv(&mut self, limit: Duration) -> Result<Value, Value> {
+        match self.rx.recv_timeout(limit) {
+            Ok(l) => serde_json::from_str(&l).map_err(|_| json!({"r":"panic","msg":"unreadable answer of the worker"})),
+            Err(RecvTimeoutError::Timeout) => {
+                let _ = self.child.kill();
+                let _ = self.child.wait();
+                Err(json!({"r":"timeout","how":format!("no answer within {} ms (Rust-level loop)", limit.as_millis())}))
+            }
+            Err(RecvTimeoutError::Disconnected) => {
+                let st = self.child.wait().ok();
+                use std::os::unix::process::ExitStatusExt;
+                let sig = st.and_then(|s| s.signal());
+                match sig {
+                    // allocation failure under the address-space cap aborts the process
+                    Some(6) => Err(json!({"r":"timeout","how":"address-space cap exhausted (unbounded allocation in a Rust-level loop)"})),
+                    Some(n) => Err(json!({"r":"panic","msg":format!("process killed by signal {}", n)})),
+                    None => Err(json!({"r":"panic","msg":format!("worker exited: {:?}", st)})),
+                }
+            }
+        }
+    }
+}
+
+impl Drop for Worker {
+    fn drop(&mut self) {
+        let _ = self.child.kill();
+        let _ = self.child.wait();
+    }
+}
+
+fn run_jobs(jobs: &[Job], out: &str, m: &std::collections::HashMap<String, String>) -> Result<(), String> {
+    let timeout = Duration::from_millis(get(m, "timeout_ms", 10_000u64));
+    let mem_mb: usize = get(m, "mem_mb", 160);
+    let mut f = std::io::BufWriter::new(std::fs::File::create(out).map_err(|e| e.to_string())?);
+    let mut w = Worker::spawn(mem_mb)?;
+    let mut id = 0usize;
+    let mut restarts = 0usize;
+    for job in jobs {
+        let def = parse_one(&job.def)?;
+        let mut emit = |rec: &mut Value, k: usize, f: &mut std::io::BufWriter<std::fs::File>, id: &mut usize| -> Result<(), String> {
+            *id += 1;
+            rec["id"] = json!(*id);
+            rec["tid"] = json!(job.tid);
+            if !job.feat.is_empty() {
+                rec["feat"] = json!(job.feat);
+            }
+            if let Some(raw) = &job.rawdef {
+                // corpus: the definition as written and the stated expansion, encoded with the
+                // record's symbol table (extended by the names only they contain)
+                let mut st = SymTab::new();
+                if let Some(names) = rec["syms"].as_array() {
+                    for n in names {
+                        let s: String = n
+                            .as_array()
+                            .map(|cs| cs.iter().filter_map(|c| c.as_u64().and_then(|c| char::from_u32(c as u32))).collect())
+                            .unwrap_or_default();
+                        st.id(&s);
+                    }
+                }
+                rec["rawdef"] = prog_datum(&parse_one(raw)?, &mut st);
+                rec["expect"] = match &job.expect[k] {
+                    None => json!({"k":"none"}),
+                    Some(e) if e == "!" => json!({"k":"nomatch"}),
+                    Some(e) => json!({"k":"exp","d":prog_datum(&parse_one(e)?, &mut st)}),
+                };
+                rec["syms"] = extra_syms(&st);
+            }
+            writeln!(f, "{}", rec).map_err(|e| e.to_string())
+        };
+        let mut next = 0usize; // next use to evaluate
+        loop {
+            // (re)send the job with the uses that are left
+            let msg = json!({"def": job.def, "uses": &job.uses[next..]});
+            writeln!(w.stdin, "{}", msg).map_err(|e| e.to_string())?;
+            w.stdin.flush().map_err(|e| e.to_string())?;
+            let dr = match w.recv(timeout) {
+                Ok(v) => v["dr"].clone(),
+                Err(why) => {
+                    w = Worker::spawn(mem_mb)?;
+                    restarts += 1;
+                    why
+                }
+            };
+            if dr["r"] != "ok" {
+                // the definition was not accepted: one record for the transformer
+                let use_ = parse_one(&job.uses[next])?;
+                let mut rec = record(&def, &use_, &dr, &json!({"r":"skip"}), None);
+                emit(&mut rec, next, &mut f, &mut id)?;
+                break;
+            }
+            let mut failed = false;
+            while next < job.uses.len() {
+                let mrule = match w.recv(timeout) {
+                    Ok(v) => v["mrule"].as_i64().unwrap_or(-1),
+                    Err(_) => -1,
+                };
+                let answer = if mrule < 0 { Err(json!({"r":"panic","msg":"matcher probe failed"})) } else { w.recv(timeout) };
+                match answer {
+                    Ok(mut rec) => {
+                        emit(&mut rec, next, &mut f, &mut id)?;
+                        next += 1;
+                    }
+                    Err(why) => {
+                        let use_ = parse_one(&job.uses[next])?;
+                        let mut rec = record(&def, &use_, &dr, &why, None);
+                        rec["mrule"] = json!(mrule);
+                        emit(&mut rec, next, &mut f, &mut id)?;
+                        next += 1;
+                        w = Worker::spawn(mem_mb)?;
+                        restarts += 1;
+                        failed = true;
+                        break;
+                    }
+                }
+            }
+            if !failed || next >= job.uses.len() {
+                break;
+            }
+        }
+    }
+    f.flush().map_err(|e| e.to_string())?;
+    eprintln!("synrules: {} transformers, {} records, {} worker restarts", jobs.len(), id, restarts);
+    Ok(())
+}
+
+// ------------------------------------------------------------------------------------------
+// corpus: sessions separated by `===`; first datum the definition, then uses, each followed
+// by `;=> expansion` or `;=> !`
+
+fn wrap_templates(def: &Cell) -> Result<Cell, String> {
+    let parts = def.collect_vec();
+    if parts.len() != 3 {
+        return Err(format!("corpus: not a define-syntax form: {:#}", def));
+    }
+    let sr = parts[2].collect_vec();
+    let mut out = vec![];
+    let mut i = 0;
+    out.push(sr[0].clone());
+    i += 1;
+    if sr[i].is_symbol() {
+        out.push(sr[i].clone());
+        i += 1;
+    }
+    out.push(sr[i].clone());
+    i += 1;
+    for r in &sr[i..] {
+        let rv = r.collect_vec();
+        if rv.len() != 2 {
+            return Err(format!("corpus: bad rule {:#}", r));
+        }
+        let q = Cell::new_list(vec![Cell::new_symbol("quote"), rv[1].clone()]);
+        out.push(Cell::new_list(vec![rv[0].clone(), q]));
+    }
+    Ok(Cell::new_list(vec![parts[0].clone(), parts[1].clone(), Cell::new_list(out)]))
+}
+
+fn corpus_jobs(text: &str) -> Result<Vec<Job>, String> {
+    let sessions = crate::corpus::read_corpus(text)?;
+    let mut jobs = vec![];
+    for (i, s) in sessions.iter().enumerate() {
+        if s.forms.len() < 2 {
+            return Err(format!("corpus session {}: definition and at least one use expected", i + 1));
+        }
+        let raw = &s.forms[0];
+        let def = wrap_templates(raw)?;
+        let uses: Vec<String> = s.forms[1..].iter().map(|c| format!("{:#}", c)).collect();
+        let expect: Vec<Option<String>> = s.expect[1..].to_vec();
+        jobs.push(Job {
+            tid: i + 1,
+            def: format!("{:#}", def),
+            rawdef: Some(format!("{:#}", raw)),
+            uses,
+            expect,
+            feat: vec!["corpus".into()],
+        });
+    }
+    Ok(jobs)
+}
+
+// ------------------------------------------------------------------------------------------
+// generator
+
+#[derive(Clone, Debug, PartialEq)]
+enum D {
+    Sym(String),
+    Int(i64),
+    Bool(bool),
+    Str(String),
+    Char(char),
+    /// items and optional dotted tail; no items and no tail = ()
+    List(Vec<D>, Option<Box<D>>),
+    Vector(Vec<D>),
+}
+
+fn sym(s: &str) -> D {
+    D::Sym(s.to_string())
+}
+fn list(v: Vec<D>) -> D {
+    D::List(v, None)
+}
+
+impl D {
+    fn text(&self, out: &mut String) {
+        match self {
+            D::Sym(s) => out.push_str(s),
+            D::Int(i) => out.push_str(&i.to_string()),
+            D::Bool(b) => out.push_str(if *b { "#t" } else { "#f" }),
+            D::Str(s) => {
+                out.push('"');
+                out.push_str(s);
+                out.push('"');
+            }
+            D::Char(c) => {
+                out.push_str("#\\");
+                out.push(*c);
+            }
+            D::List(v, tl) => {
+                out.push('(');
+                for (i, d) in v.iter().enumerate() {
+                    if i > 0 {
+                        out.push(' ');
+                    }
+                    d.text(out);
+                }
+                if let Some(t) = tl {
+                    if !v.is_empty() {
+                        out.push_str(" . ");
+                        t.text(out);
+                    }
+                }
+                out.push(')');
+            }
+            D::Vector(v) => {
+                out.push_str("#(");
+                for (i, d) in v.iter().enumerate() {
+                    if i > 0 {
+                        out.push(' ');
+                    }
+                    d.text(out);
+                }
+                out.push(')');
+            }
+        }
+    }
+    fn to_text(&self) -> String {
+        let mut s = String::new();
+        self.text(&mut s);
+        s
+    }
+}
+
+const LIT_POOL: &[&str] = &["else", "=>", "to", "by", "in"];
+const FREE_SYMS: &[&str] = &["foo", "bar", "list", "+", "if", "k", "tmp"];
+const DATA_SYMS: &[&str] = &["x", "y", "z", "p", "q", "else", "=>", "to", "a", "b", "foo", "m", "quux"];
+const VAR_NAMES: &[&str] = &["a", "b", "c", "d", "e", "f", "g", "h", "i", "j", "n", "r", "s", "t", "u", "v", "w"];
+
+struct Gen {
+    rng: Rng,
+    ell: String,
+    lits: Vec<String>,
+    feat: Vec<String>,
+    // per rule
+    vars: Vec<(String, usize)>,
+    nvar: usize,
+}
+
+impl Gen {
+    fn new(seed: u64) -> Gen {
+        Gen { rng: Rng::new(seed), ell: "...".into(), lits: vec![], feat: vec![], vars: vec![], nvar: 0 }
+    }
+
+    fn tag(&mut self, t: &str) {
+        if !self.feat.iter().any(|x| x == t) {
+            self.feat.push(t.to_string());
+        }
+    }
+
+    fn job(&mut self, nuses: usize) -> Job {
+        // ellipsis identifier
+        if self.rng.chance(1, 5) {
+            self.ell = (*self.rng.pick(&[":::", "___", "etc"])).to_string();
+            self.tag("custom-ellipsis");
+        }
+        // literals
+        let nl = self.rng.weighted(&[40, 35, 20, 5]);
+        let mut pool: Vec<&str> = LIT_POOL.to_vec();
+        for _ in 0..nl {
+            let i = self.rng.below(pool.len());
+            self.lits.push(pool.remove(i).to_string());
+        }
+        if self.rng.chance(1, 40) {
+            self.lits.push("_".into());
+            self.tag("underscore-literal");
+        }
+        let nrules = 1 + self.rng.weighted(&[45, 35, 20]);
+        let mut rules = vec![];
+        for _ in 0..nrules {
+            self.vars.clear();
+            self.nvar = 0;
+            let kw = match self.rng.weighted(&[60, 30, 10]) {
+                0 => sym("_"),
+                1 => sym("m"),
+                _ => sym("kw"),
+            };
+            let (items, tail) = self.pat_items(1, 0, true);
+            let mut v = vec![kw];
+            v.extend(items);
+            let pat = D::List(v, tail.map(Box::new));
+            let tmpl = self.template();
+            rules.push((pat, tmpl));
+        }
+        let mut sr = vec![sym("syntax-rules")];
+        if self.ell != "..." {
+            sr.push(sym(&self.ell));
+        }
+        sr.push(list(self.lits.iter().map(|l| sym(l)).collect()));
+        for (p, t) in &rules {
+            sr.push(list(vec![p.clone(), list(vec![sym("quote"), t.clone()])]));
+        }
+        let def = list(vec![sym("define-syntax"), sym("m"), list(sr)]);
+        let mut uses = vec![];
+        for _ in 0..nuses {
+            let r = self.rng.below(rules.len());
+            let u = self.use_for(&rules[r].0);
+            uses.push(u.to_text());
+        }
+        Job { tid: 0, def: def.to_text(), rawdef: None, expect: vec![None; uses.len()], uses, feat: self.feat.clone() }
+    }
+
+    // ---------------------------------------------------------------- patterns
+    fn fresh_var(&mut self, depth: usize) -> D {
+        let name = if self.nvar < VAR_NAMES.len() {
+            VAR_NAMES[self.nvar].to_string()
+        } else {
+            format!("v{}", self.nvar)
+        };
+        self.nvar += 1;
+        self.vars.push((name.clone(), depth));
+        D::Sym(name)
+    }
+
+    fn pat_atom(&mut self) -> D {
+        match self.rng.weighted(&[30, 20, 20, 15, 15]) {
+            0 => D::Int(self.rng.range(0, 9)),
+            1 => D::Str((*self.rng.pick(&["s", "step", ""])).to_string()),
+            2 => D::Bool(self.rng.chance(1, 2)),
+            3 => D::Char(*self.rng.pick(&['a', 'z'])),
+            _ => list(vec![]),
+        }
+    }
+
+    /// one sub-pattern at list nesting `nest` (1 = arguments of the use) under `ed` ellipses
+    fn pat(&mut self, nest: usize, ed: usize) -> D {
+        let can_nest = nest < 3;
+        let w_lit = if self.lits.is_empty() { 0 } else { 10 };
+        match self.rng.weighted(&[45, w_lit, 8, 7, if can_nest { 24 } else { 0 }, if can_nest { 6 } else { 0 }]) {
+            0 => self.fresh_var(ed),
+            1 => {
+                let l = self.rng.pick(&self.lits.clone()).clone();
+                self.tag("literal");
+                D::Sym(l)
+            }
+            2 => {
+                self.tag("underscore");
+                sym("_")
+            }
+            3 => {
+                self.tag("pattern-datum");
+                self.pat_atom()
+            }
+            4 => {
+                let (items, tail) = self.pat_items(nest + 1, ed, false);
+                if nest + 1 >= 3 {
+                    self.tag("pattern-nesting-3");
+                }
+                D::List(items, tail.map(Box::new))
+            }
+            _ => {
+                self.tag("vector-pattern");
+                let (items, _) = self.pat_items(nest + 1, ed, false);
+                D::Vector(items)
+            }
+        }
+    }
+
+    /// the items of a list pattern (and its dotted tail)
+    fn pat_items(&mut self, nest: usize, ed: usize, top: bool) -> (Vec<D>, Option<D>) {
+        let n = self.rng.weighted(&[if top { 4 } else { 8 }, 30, 34, 20, 8]);
+        let with_ell = ed < 2 && self.rng.chance(if top { 55 } else { 40 }, 100);
+        let mut items = vec![];
+        let ell_at = if with_ell { Some(self.rng.below(n + 1)) } else { None };
+        let mut after = 0;
+        for i in 0..=n {
+            if Some(i) == ell_at {
+                // the repeated sub-pattern
+                let pe = match self.rng.weighted(&[57, if nest < 3 { 36 } else { 0 }, if nest < 3 { 4 } else { 0 }, 1, 1]) {
+                    0 => self.fresh_var(ed + 1),
+                    1 => {
+                        let (it, tl) = self.pat_items(nest + 1, ed + 1, false);
+                        if it.is_empty() && tl.is_none() {
+                            self.fresh_var(ed + 1)
+                        } else {
+                            if ed + 1 == 2 {
+                                self.tag("pattern-ellipsis-depth-2");
+                            }
+                            D::List(it, tl.map(Box::new))
+                        }
+                    }
+                    2 => {
+                        self.tag("vector-pattern");
+                        let (it, _) = self.pat_items(nest + 1, ed + 1, false);
+                        D::Vector(it)
+                    }
+                    3 => {
+                        self.tag("underscore-ellipsis");
+                        sym("_")
+                    }
+                    _ => {
+                        if self.lits.is_empty() {
+                            self.fresh_var(ed + 1)
+                        } else {
+                            self.tag("literal-ellipsis");
+                            D::Sym(self.rng.pick(&self.lits.clone()).clone())
+                        }
+                    }
+                };
+                if ed + 1 == 2 {
+                    self.tag("pattern-ellipsis-depth-2");
+                } else {
+                    self.tag("pattern-ellipsis-depth-1");
+                }
+                items.push(pe);
+                items.push(D::Sym(self.ell.clone()));
+                after = n.saturating_sub(i + 1);
+            } else if i < n {
+                let p = self.pat(nest, ed);
+                items.push(p);
+            }
+        }
+        if with_ell && after > 0 {
+            self.tag("tail-after-ellipsis");
+        }
+        // dotted tail
+        let tail = if !items.is_empty() && self.rng.chance(14, 100) {
+            self.tag("dotted-pattern");
+            if self.rng.chance(85, 100) {
+                Some(self.fresh_var(ed))
+            } else {
+                Some(D::Int(self.rng.range(0, 9)))
+            }
+        } else if items.is_empty() && top && self.rng.chance(1, 2) {
+            // (_ . r)
+            self.tag("dotted-pattern");
+            Some(self.fresh_var(ed))
+        } else {
+            None
+        };
+        if items.is_empty() && tail.is_some() && !top {
+            // `( . r)` is not a list: just r
+            return (vec![tail.unwrap()], None);
+        }
+        (items, tail)
+    }
+
+    // ---------------------------------------------------------------- templates
+    fn t_atom(&mut self) -> D {
+        match self.rng.weighted(&[40, 25, 10, 10, 10, 5]) {
+            0 => sym(*self.rng.pick(FREE_SYMS)),
+            1 => D::Int(self.rng.range(0, 99)),
+            2 => D::Str("str".into()),
+            3 => D::Bool(self.rng.chance(1, 2)),
+            4 => list(vec![]),
+            _ => D::Char('c'),
+        }
+    }
+
+    fn vars_at(&self, d: usize) -> Vec<String> {
+        self.vars.iter().filter(|(_, vd)| *vd == d || *vd == 0).map(|(n, _)| n.clone()).collect()
+    }
+    fn vars_deeper(&self, d: usize) -> Vec<(String, usize)> {
+        self.vars.iter().filter(|(_, vd)| *vd > d).cloned().collect()
+    }
+
+    fn template(&mut self) -> D {
+        // rare deliberately erroneous templates: nothing is prescribed for them except termination
+        if !self.vars.is_empty() && self.rng.chance(3, 100) {
+            let (v, d) = self.rng.pick(&self.vars.clone()).clone();
+            let e = D::Sym(self.ell.clone());
+            return match self.rng.below(3) {
+                0 => {
+                    self.tag("erroneous:too-many-ellipses");
+                    let mut items = vec![sym("foo"), D::Sym(v)];
+                    for _ in 0..=d {
+                        items.push(e.clone());
+                    }
+                    list(items)
+                }
+                1 if d > 0 => {
+                    self.tag("erroneous:too-few-ellipses");
+                    list(vec![sym("foo"), D::Sym(v)])
+                }
+                _ => {
+                    self.tag("erroneous:ellipsis-after-constant");
+                    list(vec![D::Sym(v), D::Int(1), e])
+                }
+            };
+        }
+        let budget = 3;
+        match self.rng.weighted(&[8, 92]) {
+            0 => self.t_any(0, 0, None),
+            _ => self.t_compound(0, budget, None),
+        }
+    }
+
+    /// a template under `d` ellipses; if `must` is given it contains that variable at its depth
+    fn t_any(&mut self, d: usize, budget: usize, must: Option<&(String, usize)>) -> D {
+        if let Some((v, vd)) = must {
+            if *vd == d && (budget == 0 || self.rng.chance(50, 100)) {
+                return D::Sym(v.clone());
+            }
+            return self.t_compound(d, budget.max(1), must);
+        }
+        let here = self.vars_at(d);
+        let w_var = if here.is_empty() { 0 } else { 55 };
+        let w_comp = if budget > 0 { 30 } else { 0 };
+        match self.rng.weighted(&[w_var, 15, w_comp]) {
+            0 => D::Sym(self.rng.pick(&here).clone()),
+            1 => self.t_atom(),
+            _ => self.t_compound(d, budget, None),
+        }
+    }
+
+    fn t_compound(&mut self, d: usize, budget: usize, must: Option<&(String, usize)>) -> D {
+        let budget = budget.saturating_sub(1);
+        let n = 1 + self.rng.weighted(&[20, 35, 30, 15]);
+        let must_pos = self.rng.below(n);
+        let mut items = vec![];
+        // marwood rejects a template list with two ellipses: keep most lists to one
+        let mut had_ell = must.map(|(_, vd)| *vd > d).unwrap_or(false);
+        for i in 0..n {
+            let m = if i == must_pos { must } else { None };
+            let deeper = self.vars_deeper(d);
+            let force_ell = m.map(|(_, vd)| *vd > d).unwrap_or(false);
+            let p_ell = if had_ell { 6 } else { 45 };
+            if force_ell || (m.is_none() && !deeper.is_empty() && self.rng.chance(p_ell, 100)) {
+                had_ell = true;
+                // an element followed by an ellipsis, iterating over variable `it`
+                let it = match m {
+                    Some(x) => x.clone(),
+                    None => self.rng.pick(&deeper).clone(),
+                };
+                // rarely: (x ... ...) for a variable of depth d+2
+                if it.1 == d + 2 && self.rng.chance(1, 12) {
+                    self.tag("template-consecutive-ellipses");
+                    items.push(D::Sym(it.0.clone()));
+                    items.push(D::Sym(self.ell.clone()));
+                    items.push(D::Sym(self.ell.clone()));
+                    continue;
+                }
+                let e = self.t_any(d + 1, budget, Some(&it));
+                if d + 1 == 2 {
+                    self.tag("template-ellipsis-depth-2");
+                } else {
+                    self.tag("template-ellipsis-depth-1");
+                }
+                items.push(e);
+                items.push(D::Sym(self.ell.clone()));
+            } else {
+                let e = self.t_any(d, budget, m);
+                items.push(e);
+            }
+        }
+        // (... ...)
+        if d == 0 && must.is_none() && self.rng.chance(2, 100) {
+            self.tag("ellipsis-escape");
+            items.push(list(vec![D::Sym(self.ell.clone()), D::Sym(self.ell.clone())]));
+        }
+        match self.rng.weighted(&[90, 5, 5]) {
+            0 => list(items),
+            1 => {
+                self.tag("vector-template");
+                D::Vector(items)
+            }
+            _ => {
+                self.tag("dotted-template");
+                let here = self.vars_at(d);
+                let tl = if !here.is_empty() && self.rng.chance(70, 100) {
+                    D::Sym(self.rng.pick(&here).clone())
+                } else {
+                    D::Int(self.rng.range(0, 9))
+                };
+                D::List(items, Some(Box::new(tl)))
+            }
+        }
+    }
+
+    // ---------------------------------------------------------------- uses
+    fn datum(&mut self, depth: usize) -> D {
+        let w_comp = if depth < 2 { 25 } else { 0 };
+        match self.rng.weighted(&[30, 35, 5, 5, 3, 4, w_comp, if depth < 2 { 5 } else { 0 }]) {
+            0 => D::Int(self.rng.range(0, 99)),
+            1 => sym(*self.rng.pick(DATA_SYMS)),
+            2 => D::Str((*self.rng.pick(&["s", "step", "hello"])).to_string()),
+            3 => D::Bool(self.rng.chance(1, 2)),
+            4 => D::Char(*self.rng.pick(&['a', 'z'])),
+            5 => list(vec![]),
+            6 => {
+                let n = 1 + self.rng.below(3);
+                let v: Vec<D> = (0..n).map(|_| self.datum(depth + 1)).collect();
+                if self.rng.chance(1, 8) {
+                    let tl = if self.rng.chance(1, 2) { D::Int(self.rng.range(0, 9)) } else { sym(*self.rng.pick(DATA_SYMS)) };
+                    D::List(v, Some(Box::new(tl)))
+                } else {
+                    list(v)
+                }
+            }
+            _ => {
+                let n = self.rng.below(3);
+                D::Vector((0..n).map(|_| self.datum(depth + 1)).collect())
+            }
+        }
+    }
+
+    fn is_ell(&self, d: &D) -> bool {
+        matches!(d, D::Sym(s) if *s == self.ell)
+    }
+
+    /// A form matching pattern `p`.  counts: Some([n1, n2]) = every ellipsis of depth k repeats
+    /// n_k times (so variables iterated together always have equal lengths).
+    fn matching(&mut self, p: &D, ed: usize, counts: &Option<[usize; 2]>) -> D {
+        match p {
+            D::Sym(s) => {
+                if self.lits.iter().any(|l| l == s) {
+                    D::Sym(s.clone())
+                } else {
+                    self.datum(0)
+                }
+            }
+            D::List(items, tl) => {
+                let mut out = self.matching_items(items, ed, counts);
+                let tail = match tl {
+                    None => None,
+                    Some(t) => match &**t {
+                        D::Sym(s) if !self.lits.iter().any(|l| l == s) => match self.rng.weighted(&[35, 35, 30]) {
+                            0 => None,
+                            1 => Some(Box::new(if self.rng.chance(1, 2) { D::Int(self.rng.range(0, 9)) } else { sym(*self.rng.pick(DATA_SYMS)) })),
+                            _ => {
+                                let n = 1 + self.rng.below(2);
+                                for _ in 0..n {
+                                    let d = self.datum(1);
+                                    out.push(d);
+                                }
+                                None
+                            }
+                        },
+                        other => Some(Box::new(self.matching(other, ed, counts))),
+                    },
+                };
+                if out.is_empty() {
+                    return match tail {
+                        Some(t) => *t,
+                        None => list(vec![]),
+                    };
+                }
+                D::List(out, tail)
+            }
+            D::Vector(items) => D::Vector(self.matching_items(items, ed, counts)),
+            other => other.clone(),
+        }
+    }
+
+    fn matching_items(&mut self, items: &[D], ed: usize, counts: &Option<[usize; 2]>) -> Vec<D> {
+        let mut out = vec![];
+        let mut i = 0;
+        while i < items.len() {
+            if i + 1 < items.len() && self.is_ell(&items[i + 1]) {
+                let n = match counts {
+                    Some(c) => c[ed.min(1)],
+                    None => self.rng.weighted(&[20, 25, 30, 20, 5]),
+                };
+                for _ in 0..n {
+                    let d = self.matching(&items[i], ed + 1, counts);
+                    out.push(d);
+                }
+                i += 2;
+            } else {
+                let d = self.matching(&items[i], ed, counts);
+                out.push(d);
+                i += 1;
+            }
+        }
+        out
+    }
+
+    fn mutate(&mut self, d: &D, top: bool) -> D {
+        match d {
+            D::List(items, tl) if !items.is_empty() => {
+                let mut items = items.clone();
+                let mut tl = tl.clone();
+                let lo = if top { 1 } else { 0 };
+                match self.rng.below(6) {
+                    0 if items.len() > lo => {
+                        let i = lo + self.rng.below(items.len() - lo);
+                        items.remove(i);
+                    }
+                    1 => {
+                        let i = lo + self.rng.below(items.len() - lo + 1);
+                        let x = self.datum(1);
+                        items.insert(i, x);
+                    }
+                    2 if items.len() > lo => {
+                        let i = lo + self.rng.below(items.len() - lo);
+                        items[i] = self.datum(0);
+                    }
+                    3 if items.len() > lo => {
+                        let i = lo + self.rng.below(items.len() - lo);
+                        items[i] = self.mutate(&items[i].clone(), false);
+                    }
+                    4 => {
+                        tl = if tl.is_some() { None } else { Some(Box::new(D::Int(7))) };
+                    }
+                    _ => {
+                        if items.len() > lo {
+                            let i = lo + self.rng.below(items.len() - lo);
+                            items[i] = self.mutate(&items[i].clone(), false);
+                        } else {
+                            let x = self.datum(1);
+                            items.push(x);
+                        }
+                    }
+                }
+                if items.is_empty() {
+                    return list(vec![]);
+                }
+                D::List(items, tl)
+            }
+            D::Vector(items) => {
+                let mut items = items.clone();
+                if !items.is_empty() && self.rng.chance(1, 2) {
+                    items.pop();
+                } else {
+                    let x = self.datum(1);
+                    items.push(x);
+                }
+                D::Vector(items)
+            }
+            D::Sym(s) => {
+                if self.rng.chance(1, 2) {
+                    sym(if s == "else" { "=>" } else { "else" })
+                } else {
+                    list(vec![D::Sym(s.clone())])
+                }
+            }
+            _ => self.datum(0),
+        }
+    }
+
+    fn use_for(&mut self, pat: &D) -> D {
+        let counts = if self.rng.chance(70, 100) {
+            Some([self.rng.weighted(&[15, 25, 35, 20, 5]), self.rng.weighted(&[15, 30, 35, 20])])
+        } else {
+            None
+        };
+        let (items, tl) = match pat {
+            D::List(items, tl) => (items.clone(), tl.clone()),
+            _ => unreachable!(),
+        };
+        // match the pattern without its keyword, then put the keyword of the macro in front
+        let body = D::List(items[1..].to_vec(), tl);
+        let body = if items.len() == 1 {
+            match &body {
+                D::List(_, Some(t)) => self.matching(&t.clone(), 0, &counts),
+                _ => list(vec![]),
+            }
+        } else {
+            self.matching(&body, 0, &counts)
+        };
+        let mut u = match body {
+            D::List(v, tl) => {
+                let mut w = vec![sym("m")];
+                w.extend(v);
+                D::List(w, tl)
+            }
+            atom => D::List(vec![sym("m")], Some(Box::new(atom))),
+        };
+        // about a third of the uses are perturbed (most of them then match no rule or another one)
+        let k = self.rng.weighted(&[68, 24, 8]);
+        for _ in 0..k {
+            u = self.mutate(&u, true);
+        }
+        u
+    }
 }
